@@ -344,6 +344,8 @@ def expr_for(draw, frag):
             parts[2] = ["Const", "int", 2]
         if all(q is None for q in parts):
             parts = [None]
+        if draw(st.integers(0, 4)) == 0:
+            parts = [["Const", "int", draw(st.integers(1, 3))]]   # a lone part is the stop
         ex = ["Subscript", ["Var", "A"], ["Slice", parts]]
         if draw(st.booleans()):
             ex = ["Call", ["Var", "h"], [["Subscript", ex, ["Const", "int", 0]]]] \
